@@ -930,7 +930,7 @@ func (c *Ctx) justifyNodeAssertion(r *Report, fn *ssa.Function, ta *ssa.TypeAsse
 
 func init() {
 	register("C07", &propDef{
-		explain: "Panic-site discipline over everything reachable from program text (repl.EvalOne, eval.EvalString and every registered extension callback; CHA call graph including calls through function values): explicit panics are the two documented guards or carry a stated invariant; integer / % << >> operands are proven safe by dominating tests; one-value type assertions are justified by dominating Type()/token tests checked against the tag->concrete-type map and the token->node relation derived from the parser, by comma-ok tests, by the extension registry, or by all callers; boxed forms agree with what consumers match; binding lookups that can dangle are guarded; evaluator states are fully initialised; Hashable protects the Go map key. Each is a reachable-crash condition visible in code shape, decided for all programs. Shares C05.R1/R2/R8 (the panic-table entries for MakeRegister/ReleaseRegister rest on them).",
+		explain: "Panic-site discipline over everything reachable from program text (repl.EvalOne, eval.EvalString and every registered extension callback; CHA call graph including calls through function values): explicit panics are the two documented guards or carry a stated invariant; integer / % << >> operands are proven safe by dominating tests; one-value type assertions are justified by dominating Type()/token tests checked against the tag->concrete-type map and the token->node relation derived from the parser, by comma-ok tests, by the extension registry, or by all callers; boxed forms agree with what consumers match; binding lookups that can dangle are guarded; evaluator states are fully initialised; Hashable protects the Go map key. Each is a reachable-crash condition visible in code shape, decided for all programs. Shares C05.R1/R2/R8 (the panic-table entries for MakeRegister/ReleaseRegister rest on them). Also: representation invariants of the fixed-capacity containers (length fields within the capacity of the array they index) and a complete inventory of index/slice operations in eval, object and extensions: each is proven relative to the length of its own operand by a constant-interval / relative prover (dominating comparisons with directional location equality, loop-edge facts, make-length relations, callers and callees), belongs to the callback-argument rule, or is one of 40 named sites with the argument read off the code; anything else is reported.",
 		assume:  []string{"nil dereferences in general and panics inside the standard library are not covered (only the lookups of R6 and the nil-node converter)", "the invariants written in the panic table are arguments, cross-referenced to the rules that check them where one exists", "assertions whose discriminator the engine does not recognise are listed as abstained, not alarmed"},
 		run:     runC07,
 	})
